@@ -224,4 +224,19 @@ CLAIMS["C19"] = {
     "design_ref": "DESIGN.md §4 C19",
 }
 
+CLAIMS["C09"] = {
+    "technique": "delegation / pairing rules and must-dataflow over the MIR event graph of the read APIs",
+    "text": "Decides the structural clauses for every poll sequence and transport pattern: poll_read / poll_fill_buf / consume delegate to the "
+            "stream parser and its stream buffer, and the caller's buffer is written only by the parser or by the copy out of stream_buffer() "
+            "(R9.1); bytes copied out are consumed by exactly the copied amount on every path, poll_fill_buf never consumes (R9.2); after a "
+            "parse nothing that can return Pending/Err runs unless the parse reported neither data nor end-of-stream, so delivered bytes and "
+            "end-of-stream are never dropped, and the success count is the parse's / the copy's count (R9.3); the writeable flag is only "
+            "raised, under the single-input-stream test in the constructor or under is_final_stream() after data/end of the active stream "
+            "(R9.4); StreamWriters are constructed only behind the writeable and role-membership asserts with the request's id (R9.5); "
+            "writeable() selects the role's last input stream (R9.6). Does NOT decide the exact bytes for every poll sequence nor EOF "
+            "persistence (the stream parser's behaviour: C02/C18).",
+    "note": "stream::Parser::parse / stream_buffer / consume_stream are events with their documented meaning.",
+    "design_ref": "DESIGN.md §4 C09",
+}
+
 PENDING_REASON = "rules for this property are not built yet (build in progress; DESIGN.md §7 gives the order)"
